@@ -1,5 +1,6 @@
 import PGM.Driver.Codec
 import PGM.Model.Synth
+import PGM.Model.SynthChain
 /-! driver handler for synthetic columns (C11) -/
 open Lean
 namespace PGM.Driver
@@ -14,5 +15,54 @@ def handleColCheck (req : Json) : Except String Json := do
     let out : List Nat ← decList (← it.getObjVal? "out")
     pure (Json.bool (colOK counts total out)))
   pure (Json.mkObj [("ok", .arr res.toArray)])
+
+def decNatLists (j : Json) : Except String (List (List Nat)) := do
+  (← j.getArr?).toList.mapM (fun x => (decList x : Except String (List Nat)))
+
+/-- one step of the column loop: `cond` arrives as a list of `[key, counts]` pairs (the slices of the model marginal) -/
+def decColSpec (j : Json) : Except String ColSpec := do
+  let col ← (← j.getObjVal? "col").getNat?
+  let proj : List Nat ← decList (← j.getObjVal? "proj")
+  let size ← (← j.getObjVal? "size").getNat?
+  let tbl ← (← (← j.getObjVal? "cond").getArr?).toList.mapM (fun e => do
+    let k : List Nat ← decList (← e.getObjVal? "key")
+    let c : List Rat ← decList (← e.getObjVal? "counts")
+    pure (k, c))
+  pure ⟨col, proj, size, fun g => (tbl.lookup g).getD []⟩
+
+/-- the whole table of `synthetic_data` replayed from the recorded outcomes of `synthetic_col`, the admissibility of those outcomes
+(`outsOK`: group sizes, domain, verified `colOK` on every group histogram), and — when a parent function is supplied — the chain-rule
+targets and the row-independent error bound of `synthTable_clique_error` evaluated on the replayed table -/
+def handleSynthTable (req : Json) : Except String Json := do
+  let ncols ← (← req.getObjVal? "ncols").getNat?
+  let total ← (← req.getObjVal? "total").getNat?
+  let specs ← (← (← req.getObjVal? "specs").getArr?).toList.mapM decColSpec
+  let outs ← (← (← req.getObjVal? "outs").getArr?).toList.mapM decNatLists
+  let init := List.replicate total (List.replicate ncols 0)
+  let tab := synthTable ncols total specs outs
+  -- group keys seen by every step (pandas visits them in this order)
+  let keys := (List.range specs.length).map (fun k =>
+    groupKeys (specAt specs k).proj (synthTable ncols total (specs.take k) (outs.take k)))
+  let base := [("table", Json.arr (tab.map (fun r => (encList r : Json))).toArray),
+    ("wf", Json.bool (specsWF ncols [] specs)), ("outs_ok", Json.bool (outsOK ncols total specs outs init)),
+    ("keys", Json.arr (keys.map (fun ks => Json.arr (ks.map (fun k => (encList k : Json))).toArray)).toArray)]
+  match req.getObjVal? "parent" with
+  | .ok pj => do
+    let par : List Nat ← decList pj
+    let parent := fun k => par.getD k 0
+    let S : Rat ← Codec.dec (← req.getObjVal? "mass")
+    let worst := (List.range specs.length).map (fun k =>
+      let sp := specAt specs k
+      let cells := tuplesOver (attrSize specs) sp.proj
+      let errs := cells.flatMap (fun g => (List.range sp.size).map (fun v =>
+        let n : Rat := (cellCount (sp.proj ++ [sp.col]) (g ++ [v]) tab : Nat)
+        let d := n - target specs parent total k g v
+        if d < 0 then -d else d))
+      errs.foldl (fun a b => if a < b then b else a) 0)
+    pure (Json.mkObj (base ++ [("chain_wf", Json.bool (chainWF specs parent)),
+      ("marg_consistent", Json.bool (margConsistent specs parent S)),
+      ("err_bound", encList ((List.range specs.length).map (errBound specs parent))),
+      ("worst_err", encList worst)]))
+  | .error _ => pure (Json.mkObj base)
 
 end PGM.Driver
